@@ -302,6 +302,17 @@ class Sym:
             return NotImplemented
         return Sym(_ctx.floordiv(self.e, b.e))
 
+    def __mod__(self, o):
+        """x % m for a positive constant m (Python / Decimal agree for non-negative x; the sign convention of the dividend is
+        not modelled: the result is the mathematical remainder in [0, m))"""
+        b = as_sym(o)
+        if b is None:
+            return NotImplemented
+        if self.dp is None or b.dp is None or _const_int(b.n) is None:
+            raise Concretization("modulo by a non-constant / of a real-valued symbolic number")
+        na, nb, d = _align(self, b)
+        return Sym(na % nb, d)
+
     def __neg__(self):
         return Sym(-self.n, self.dp, None if self.alts is None else [(c, -v) for c, v in self.alts])
 
